@@ -232,3 +232,13 @@ func (n *Node) GQL(ctx context.Context, q string, opts ...client.RequestOption) 
 	}
 	return string(b)
 }
+
+// RawBlock reads the raw bytes stored under a cid in the shared blockstore (any block kind).
+func (n *Node) RawBlock(ctx context.Context, c cid.Cid) []byte {
+	bs := datastore.BlockstoreFrom(n.Root)
+	b, err := bs.Get(ctx, c)
+	if err != nil {
+		panic(err)
+	}
+	return b.RawData()
+}
